@@ -91,7 +91,7 @@ for i in ids:
         checks.append({
             "property_id": i,
             "quick_cmd": f"bin/check {i} --tier quick",
-            "thorough_cmd": f"bin/check {i} --tier thorough",
+            "thorough_cmd": f"bin/thorough {i}",
             "evidence_file": f"/verif/evidence/{i}.json",
             "replay_cmd_template": f"bin/check {i} --replay {{path}}",
             "engine": eng,
